@@ -3,7 +3,7 @@ SPECIFICATION Spec
 CONSTANTS LgMaxK = 2
  Inputs <- Catalogue
  Items <- MCItems
- PromoteAt = 2
+ PromoteCount <- PC2
  FixedIsEmpty = TRUE
  FixedReset = FALSE
 INVARIANT ResultOK EmptyOK CountersOK UInvOK
